@@ -40,12 +40,45 @@ func TestKnown(t *testing.T)  { ev.RunKnown(t, "C17", judges) }
 func TestReplay(t *testing.T) { ev.RunReplay(t, judges) }
 
 // genOff: generator exclusions.  C17 does not run ir.Validate, so the C08-2 tag
-// (validator rejects aliased bindings) does not apply here.
+// (validator rejects aliased bindings) does not apply here.  Under
+// VERIF_NO_EXCLUDE=1 only C17's own guards are lifted: the guards of other
+// properties' findings stay, otherwise no generated program gets past the
+// front end (C08-17…19) and nothing would be checked.
 func genOff(tag string) bool {
 	if tag == "binding.alias-across-entry-points" {
 		return false
 	}
+	if os.Getenv("VERIF_NO_EXCLUDE") != "" {
+		return foreignTags()[tag]
+	}
 	return ev.Excluded(tag)
+}
+
+var foreign map[string]bool
+
+func foreignTags() map[string]bool {
+	if foreign != nil {
+		return foreign
+	}
+	foreign = map[string]bool{}
+	b, err := os.ReadFile(ev.Root() + "/known_findings.json")
+	if err != nil {
+		return foreign
+	}
+	var doc struct {
+		Findings []ev.Finding `json:"findings"`
+	}
+	if json.Unmarshal(b, &doc) != nil {
+		return foreign
+	}
+	for _, f := range doc.Findings {
+		if f.Status == "open" && f.Property != "C17" {
+			for _, t := range f.Tags {
+				foreign[t] = true
+			}
+		}
+	}
+	return foreign
 }
 
 // ---------------------------------------------------------------------------
